@@ -24,6 +24,7 @@ type clientHello struct {
 	tls13                 bool
 	echExt                *echExt
 	noExtensions          bool
+	trailing              []byte // bytes that follow the extensions inside the message
 }
 
 // The ECH Extension as specified in Section 5 of
@@ -237,6 +238,7 @@ func parseClientHello(buf []byte) (*clientHello, error) {
 	if err := hello.parseExtensions(); err != nil {
 		return nil, err
 	}
+	hello.trailing = s
 	if hello.echExt != nil && hello.echExt.Type == 1 {
 		// Section 5.1: the padding that follows the extensions of an
 		// EncodedClientHelloInner must be all zeros.
